@@ -1025,8 +1025,40 @@ func runWG(c Case, ctl *sched.Ctl, mon *monitor, wg *sync.WaitGroup) {
 	})
 }
 
+// behavioural probe used by the regeneration step (coq/gen/C05Consts.v), obj maxconns: the status
+// code MaxConnsHandler(1) answers with while its only slot is taken (R = 1000 + code)
+func runProbeStatus() int64 {
+	entered := make(chan struct{})
+	leave := make(chan struct{})
+	first := int32(1)
+	h := handler.MaxConnsHandler(1)(http.HandlerFunc(func(w http.ResponseWriter, r *http.Request) {
+		if atomic.CompareAndSwapInt32(&first, 1, 0) {
+			close(entered)
+			<-leave
+		}
+	}))
+	done := make(chan struct{})
+	go func() {
+		defer close(done)
+		h.ServeHTTP(httptest.NewRecorder(), httptest.NewRequest(http.MethodGet, "/", nil))
+	}()
+	select {
+	case <-entered:
+	case <-time.After(10 * time.Second):
+		return 0
+	}
+	rec := httptest.NewRecorder()
+	h.ServeHTTP(rec, httptest.NewRequest(http.MethodGet, "/", nil))
+	close(leave)
+	<-done
+	return 1000 + int64(rec.Code)
+}
+
 // behavioural probe used by the regeneration step (coq/gen/C05Consts.v)
 func runProbe(c Case) int64 {
+	if c.Obj == "maxconns" {
+		return runProbeStatus() - 10
+	}
 	calls := 0
 	p := syncx.NewPool(1, func() any {
 		calls++
